@@ -158,7 +158,10 @@ def run(idx, rep, tier):
                     continue
                 def dim_text(a_, depth=0):
                     """`self.shape[i]`, also behind a local (`rows, cols = self.shape`, `n = self.shape[-1]`)"""
-                    if isinstance(a_, ast.Name) and depth < 3:
+                    if isinstance(a_, ast.Name) and depth < 4:
+                        nxt_ = df.resolve_at(td.node, a_)
+                        if nxt_ is not a_:
+                            return dim_text(nxt_, depth + 1)
                         vals = [(v_, p_) for v_, p_, st_ in df.assignments(td.node).get(a_.id, []) if not isinstance(v_, ast.AugAssign)]
                         if len(vals) == 1:
                             v_, p_ = vals[0]
